@@ -96,6 +96,18 @@ def make_source(kind, data, chunks=None, hook=None):
         parts = chunks or [len(data) or 1]
         f = SimFile(data, parts)
         return bytes_from_files([f]), f
+    if kind == "simfile_text":
+        from tpmstream.io import bytes_from_files
+        # a file opened in text mode ("r", what sys.stdin is): bytes_from_files must go to its .buffer
+        f = SimFile(data, chunks or [len(data) or 1])
+
+        class _Text:
+            mode = "r"
+            buffer = f
+
+            def read(self, *a):
+                raise AssertionError("text-mode read() must not be used for binary input")
+        return bytes_from_files([_Text()]), f
     if kind == "simfiles":
         from tpmstream.io import bytes_from_files
         cuts = sorted(set(c for c in (chunks or []) if 0 <= c <= len(data)))
